@@ -223,8 +223,11 @@ impl SOA {
     }
 
     /// Increments the serial number by one
+    ///
+    /// Serial numbers use [RFC 1982](https://tools.ietf.org/html/rfc1982) sequence space
+    /// arithmetic, so the successor of `u32::MAX` is `0`.
     pub fn increment_serial(&mut self) {
-        self.serial += 1; // TODO: what to do on overflow?
+        self.serial = self.serial.wrapping_add(1);
     }
 }
 
